@@ -62,7 +62,9 @@ func c08Cells(tier string) []Cell {
 		strat int
 	}
 
-	batches := []bs{{"none", 0}, {"expireall", 0}, {"deleteall", 0}, {"cleanup", 0}, {"evict", 0}, {"evict", 1}, {"evict", 2}, {"walk", 0}, {"walk", 1}, {"walkfail", 0}}
+	batches := []bs{{"none", 0}, {"expireall", 0}, {"deleteall", 0}, {"cleanup", 0}, {"evict", 0}, {"evict", 1}, {"evict", 2}, {"walk", 0}, {"walk", 1}, {"walkfail", 0},
+		// LRU / LFU keep a serve counter per entry, which Write, ExpireAll and the delete-expired job have to carry along
+		{"expireall", 1}, {"expireall", 2}, {"cleanup", 1}, {"cleanup", 2}}
 
 	for _, b := range backendKinds {
 		for _, bt := range batches {
@@ -475,7 +477,7 @@ func c08Run(c Cell, env *Env) CellResult {
 					ttl = " ttl=unlimited"
 				}
 
-				vs = append(vs, Violation{Signature: fmt.Sprintf("C08 %s batch=%s%s %s", cc.Backend, cc.Batch, ttl, kind), Detail: detail})
+				vs = append(vs, Violation{Signature: fmt.Sprintf("C08 %s batch=%s%s %s", cc.Backend, cc.Batch, ttl, kind), Detail: detail + fmt.Sprintf(" (eviction strategy %s)", strategyNames[cc.Strategy])})
 			}
 
 			if r.Deadlock || r.Panic != nil {
@@ -642,7 +644,7 @@ func init() {
 		Cells: c08Cells, Run: c08Run,
 		Rule: "client programs: thread A = every sequence of 1-2 operations over {Write,Read,Delete} x {k0,k1}, thread B = every sequence of 1 (quick) / 1-2 (thorough) operations, optional third single-operation thread (thorough), " +
 			"preemption bound 2 with happens-before caching; thorough additionally runs the quick programs with ALL interleavings; " +
-			"plus one batch thread from {ExpireAll, DeleteAll, cleanup (delete-expired), eviction under MostExpired/LRU/LFU, Walk under MostExpired/LRU, Walk whose callback gives up}; k0,k1 live in the same shard; 3 backends; the ExpireAll and cleanup cells once more on a cache configured with UnlimitedTTL; the client programs once more on two keys with the SAME xxhash64 (slot model: a write may displace the colliding key, nothing else may cross keys); " +
+			"plus one batch thread from {ExpireAll (MostExpired/LRU/LFU), DeleteAll, cleanup (delete-expired; MostExpired/LRU/LFU), eviction under MostExpired/LRU/LFU, Walk under MostExpired/LRU, Walk whose callback gives up}; k0,k1 live in the same shard; 3 backends; the ExpireAll and cleanup cells once more on a cache configured with UnlimitedTTL; the client programs once more on two keys with the SAME xxhash64 (slot model: a write may displace the colliding key, nothing else may cross keys); " +
 			"all schedules within the bound; each per-key history (invocation/response stamped by a logical clock, batch calls as one pseudo-operation per key spanning the call, every Walk report as a read-like pseudo-operation) " +
 			"is checked with porcupine against a nondeterministic register-with-expiry model; an entry nobody touches must be visited exactly once by every Walk",
 		Assumptions: []string{
